@@ -392,7 +392,7 @@ impl Check for C19 {
     type Case = Case;
     const ID: &'static str = "C19";
     fn runs(t: Tier) -> u64 {
-        t.pick(6_000, 400_000)
+        t.pick(20_000, 800_000)
     }
     fn generate(rng: &mut Rng, _tier: Tier, idx: u64) -> Case {
         let mut k = rng.sub("knobs");
